@@ -56,6 +56,13 @@ def load_known():
         return json.load(f)["findings"]
 
 
+def _sigs(k, tier):
+    """pinned failure signatures of a known finding for this tier ({} if none recorded)"""
+    s = k.get("signatures") or {}
+    v = s.get(tier)
+    return v if isinstance(v, dict) else {}
+
+
 def _signature(ob):
     """how an obligation fails: for bounded cases the observed wrong behaviour on the witness"""
     if ob.kind == "bounded" and ob.fail:
@@ -72,12 +79,46 @@ def func_hashes(functions):
     return out
 
 
+def replay_file(pid, mod, path, tier):
+    """re-run what a replay file describes against the CURRENT tree: the unit of a deductive obligation (symbolic
+    execution + native replay of the counter-model), or the recorded witness of a bounded class"""
+    with open(path) as f:
+        rec = json.load(f)
+    print("obligation:", rec.get("obligation"))
+    print("recorded counterexample:", json.dumps(rec.get("counterexample"), default=str)[:600])
+    print("recorded native replay:", json.dumps(rec.get("native_replay"), default=str)[:600])
+    u = rec.get("unit")
+    if u:
+        plan = mod.plan(tier)
+        unit = next((x for x in plan.units if x.module == u["module"] and x.func == u["func"]
+                     and json.loads(json.dumps(list(x.params))) == u["params"]), None)
+        if unit is None:
+            print("unit no longer in the plan")
+            return 2
+        r = runner.run_unit(unit)
+        label = rec["obligation"][len(pid) + 1 + len(unit.uid) + 1:]
+        o = r["obligations"].get(label)
+        print("now:", (o or {}).get("status"), json.dumps((o or {}).get("native"), default=str)[:600])
+        if o and o["status"] == "refuted":
+            print("VIOLATION property=%s replay=%s" % (pid, path))
+            return 1
+        return 0
+    w = rec.get("counterexample") or {}
+    if "script" in w:
+        from bounded import parser_bounded as pb
+        dis, r, v = pb.compare(w["script"].encode("latin-1"))
+        print("now: real verdict %r, reference %s %s; disagreements %r" % (r["verdict"], v.status, v.reason, [d[:2] for d in dis]))
+        return 1 if dis else 0
+    print("no automatic replay for this kind of witness; see detail:", str(rec.get("detail"))[:600])
+    return 0
+
+
 def run_check(pid, tier, seed, replay_path=None):
     t0 = time.time()
     source.ensure_repo_on_path()
     mod = importlib.import_module("props.%s" % pid.lower())
     if replay_path:
-        return mod.replay(replay_path)
+        return replay_file(pid, mod, replay_path, tier)
     plan = mod.plan(tier)
     obs = []
     errors = []
@@ -154,6 +195,9 @@ def run_check(pid, tier, seed, replay_path=None):
             for (oid, witness, detail) in rep.get("violations", []):
                 ob = Ob(oid, "refuted", ["bounded:" + rep["name"]], 0.0, 1,
                         {"model": witness, "detail": detail}, kind="bounded")
+                ob.pinned = rep.get("exhaustive", True) is not False or rep.get("stable", False)
+                if rep.get("stable") is False:
+                    ob.pinned = False
                 ob.native = {"confirmed": True, "outcome": detail}
                 obs.append(ob)
         except Exception as e:
@@ -174,11 +218,13 @@ def run_check(pid, tier, seed, replay_path=None):
             sig = _signature(ob)
             if os.environ.get("PYVC_RECORD_SIGNATURES") == pid and k is not None:
                 hits.setdefault(k["id"], []).append(ob)      # maintenance run: re-pin the signatures
-            elif k is not None and k.get("signatures") and ob.oid in k["signatures"] and k["signatures"][ob.oid] != sig:
+            elif k is not None and _sigs(k, tier) and getattr(ob, "pinned", True) and ob.oid in _sigs(k, tier) \
+                    and _sigs(k, tier)[ob.oid] != sig:
                 # the recorded witness now fails in a DIFFERENT way: not the listed finding any more
-                ob.note = "behaviour on the recorded witness changed: was %r, now %r" % (k["signatures"][ob.oid][:200], sig[:200])
+                ob.note = "behaviour on the recorded witness changed: was %r, now %r" % (_sigs(k, tier)[ob.oid][:200], sig[:200])
                 violations.append(ob)
-            elif k is not None and k.get("signatures") and ob.kind == "bounded" and ob.oid not in k["signatures"]:
+            elif k is not None and _sigs(k, tier) and ob.kind == "bounded" and getattr(ob, "pinned", True) \
+                    and ob.oid not in _sigs(k, tier):
                 ob.note = "fails like a listed finding but on a case that finding does not list"
                 violations.append(ob)
             elif k is not None:
@@ -201,7 +247,10 @@ def run_check(pid, tier, seed, replay_path=None):
             doc = json.load(f)
         for k in doc["findings"]:
             if k["property"] == pid and k.get("status") == "known" and k["id"] in hits:
-                k["signatures"] = {ob.oid: _signature(ob) for ob in hits[k["id"]] if ob.kind == "bounded"}
+                k.setdefault("signatures", {})
+                if not all(isinstance(v, dict) for v in k["signatures"].values()):
+                    k["signatures"] = {}
+                k["signatures"][tier] = {ob.oid: _signature(ob) for ob in hits[k["id"]] if ob.kind == "bounded"}
         with open(path, "w") as f:
             json.dump(doc, f, indent=1)
         print("signatures recorded for %s" % pid)
